@@ -14,35 +14,68 @@ use std::collections::{HashMap, VecDeque};
 // ------------------------------------------------------------------------------------------------
 struct BlockUniverse {
     k: u32,
+    /// symbol size, sub-blocks, alignment
+    shape: (u16, u16, u8),
     threshold: u32,
     esis: Vec<u32>,
     packets: Vec<EncodingPacket>,
     data: Vec<u8>,
 }
 
+fn shaped_cfg(k: u32, shape: (u16, u16, u8)) -> Oti {
+    Oti::new(k as u64 * shape.0 as u64, shape.0, 1, shape.1, shape.2)
+}
+
+fn shaped_decoder(k: u32, shape: (u16, u16, u8), threshold: u32) -> SourceBlockDecoder {
+    let mut d = SourceBlockDecoder::new(0, &shaped_cfg(k, shape), k as u64 * shape.0 as u64);
+    d.verif_set_sparse_threshold(threshold);
+    d
+}
+
 fn block_universe(k: u32, repair: &[u32], threshold: u32) -> BlockUniverse {
-    let data = data_pos(k as usize);
-    let enc = SourceBlockEncoder::new(0, &block_cfg(k, 1), &data);
+    block_universe_shaped(k, (1, 1, 1), repair, threshold)
+}
+
+fn block_universe_shaped(k: u32, shape: (u16, u16, u8), repair: &[u32], threshold: u32) -> BlockUniverse {
+    let data = data_pos(k as usize * shape.0 as usize);
+    let enc = SourceBlockEncoder::new(0, &shaped_cfg(k, shape), &data);
     let src = enc.source_packets();
     let mut esis: Vec<u32> = (0..k).collect();
     esis.extend_from_slice(repair);
     let packets = esis.iter().map(|&e| if e < k { src[e as usize].clone() } else { repair_packet(&enc, k, e) }).collect();
-    BlockUniverse { k, threshold, esis, packets, data }
+    BlockUniverse { k, shape, threshold, esis, packets, data }
 }
 
 type BKey = (Vec<u32>, Vec<u32>, u32, u32, bool);
 
-/// abstract answer of a set (bitmask over the universe): fresh decoder, canonical order, one batch
+/// abstract answer of a set (bitmask over the universe): a fresh decoder given the set once, in canonical order,
+/// packet by packet; cross-checked against a fresh decoder given the same set in ONE call
 fn abstract_answer(u: &BlockUniverse, mask: u32, memo: &mut HashMap<u32, Option<bool>>) -> Result<bool, String> {
     if let Some(Some(a)) = memo.get(&mask) {
         return Ok(*a);
     }
-    let pk: Vec<EncodingPacket> = (0..u.esis.len()).filter(|i| mask & (1 << i) != 0).map(|i| u.packets[i].clone()).collect();
-    let mut d = new_block_decoder(u.k, 1, Some(u.threshold));
+    let idx: Vec<usize> = (0..u.esis.len()).filter(|i| mask & (1 << i) != 0).collect();
+    let pk: Vec<EncodingPacket> = idx.iter().map(|&i| u.packets[i].clone()).collect();
+    let mut d = shaped_decoder(u.k, u.shape, u.threshold);
     let r = guarded(|| d.decode(pk)).map_err(|e| format!("fresh decoder panicked on set {:#b}: {}", mask, e))?;
     if let Some(x) = &r {
         if x != &u.data {
             return Err(format!("fresh decoder returned wrong bytes for set {:#b}", mask));
+        }
+    }
+    if u.esis.len() <= 8 || mask.count_ones() <= u.k + 1 {
+        let mut d1 = shaped_decoder(u.k, u.shape, u.threshold);
+        let mut last = None;
+        for &i in &idx {
+            last = guarded(|| d1.decode(std::iter::once(u.packets[i].clone()))).map_err(|e| format!("fresh decoder panicked on set {:#b} delivered packet by packet: {}", mask, e))?;
+        }
+        if last.is_some() != r.is_some() {
+            return Err(format!("a fresh decoder given the set {:?} in one call answers {}, given the same packets one per call it answers {}", idx.iter().map(|&i| u.esis[i]).collect::<Vec<_>>(), if r.is_some() { "Some" } else { "None" }, if last.is_some() { "Some" } else { "None" }));
+        }
+        if let Some(x) = &last {
+            if x != &u.data {
+                return Err(format!("fresh decoder returned wrong bytes for set {:#b} delivered packet by packet", mask));
+            }
         }
     }
     memo.insert(mask, Some(r.is_some()));
@@ -52,132 +85,144 @@ fn abstract_answer(u: &BlockUniverse, mask: u32, memo: &mut HashMap<u32, Option<
 struct BNode {
     dec: SourceBlockDecoder,
     mask: u32,
-    path: Vec<usize>, // one shortest delivery sequence reaching it
+    calls: Vec<Vec<usize>>, // one shortest history (list of decode() calls, each a batch of universe indices) reaching it
 }
 
+fn calls_to_esis(u: &BlockUniverse, calls: &[Vec<usize>]) -> Vec<Vec<u32>> {
+    calls.iter().map(|c| c.iter().map(|&i| u.esis[i]).collect()).collect()
+}
+
+/// Explicit-state exploration to closure. A node is (real decoder object, set of delivered packets); a transition
+/// is ONE decode() call with one packet or (batches) with any ordered pair / triple of universe packets.
 fn explore_block(u: &BlockUniverse, st: &Stats, batches: bool) {
     let n = u.esis.len();
     let mut memo: HashMap<u32, Option<bool>> = HashMap::new();
-    // canonical key -> nodes with that key. Normally one; if the decoder carries state that is not a function
-    // of the key (hidden state), objects with equal keys but unequal contents are kept as distinct states.
+    // canonical key -> nodes with that key (objects with equal keys but unequal contents, or equal objects reached
+    // with different delivered sets, are distinct nodes)
     let mut seen: HashMap<BKey, Vec<usize>> = HashMap::new();
     let mut nodes: Vec<BNode> = vec![];
     let mut queue: VecDeque<usize> = VecDeque::new();
     let mut hidden_state_splits = 0u64;
     let mut deficient_with_k = 0u64;
+    let mut same_object_other_set = 0u64;
+    let mut capped = false;
     const STATE_CAP: usize = 400_000;
-    let d0 = new_block_decoder(u.k, 1, Some(u.threshold));
+    let d0 = shaped_decoder(u.k, u.shape, u.threshold);
     seen.insert(d0.verif_canonical_state(), vec![0]);
-    nodes.push(BNode { dec: d0, mask: 0, path: vec![] });
+    nodes.push(BNode { dec: d0, mask: 0, calls: vec![] });
     queue.push_back(0);
-    let (mut transitions, mut revisits, mut dup_transitions, mut after_completion, mut batch_checks) = (0u64, 0u64, 0u64, 0u64, 0u64);
-    let report = |path: &[usize], msg: String| {
-        let es: Vec<u32> = path.iter().map(|&i| u.esis[i]).collect();
-        st.violation(format!("block:{}:{}:{:?}", u.k, u.threshold, es), format!("K={} universe ESIs {:?}, sequence {:?}: {}", u.k, u.esis, es, msg), json!({"kind":"block","K":u.k,"threshold":u.threshold,"universe":u.esis,"sequence":es}));
+    let (mut transitions, mut revisits, mut dup_transitions, mut after_completion, mut batch_transitions) = (0u64, 0u64, 0u64, 0u64, 0u64);
+    let local_violations = std::cell::Cell::new(0u64);
+    let report = |calls: &[Vec<usize>], msg: String| {
+        local_violations.set(local_violations.get() + 1);
+        let es = calls_to_esis(u, calls);
+        st.violation(format!("block:{}:{:?}:{}:{:?}", u.k, u.shape, u.threshold, es), format!("K={} (T,N,Al)={:?} universe ESIs {:?}, decode() calls {:?}: {}", u.k, u.shape, u.esis, es, msg), json!({"kind":"block","K":u.k,"shape":[u.shape.0,u.shape.1,u.shape.2],"threshold":u.threshold,"universe":u.esis,"calls":es}));
     };
-    while let Some(id) = queue.pop_front() {
-        for i in 0..n {
-            let (src_dec, src_mask, mut path) = { let nd = &nodes[id]; (nd.dec.clone(), nd.mask, nd.path.clone()) };
-            path.push(i);
-            let mut d = src_dec;
-            let was_done = abstract_answer(u, src_mask, &mut memo).unwrap_or(false);
-            let r = guarded(|| d.decode(std::iter::once(u.packets[i].clone())));
-            transitions += 1;
-            if src_mask & (1 << i) != 0 { dup_transitions += 1; }
-            if was_done { after_completion += 1; }
-            let mask = src_mask | (1 << i);
-            let want = match abstract_answer(u, mask, &mut memo) {
-                Ok(w) => w,
-                Err(m) => { report(&path, m); continue; }
-            };
-            match r {
-                Err(p) => { report(&path, format!("decode panicked: {}", p)); continue; }
-                Ok(None) => if want { report(&path, "history answers 'not yet' but the same packet set delivered once, in order, in one batch decodes".into()); },
-                Ok(Some(x)) => {
-                    if !want { report(&path, "history decodes but the same packet set delivered once, in order, in one batch does not".into()); }
-                    else if x != u.data { report(&path, "wrong bytes".into()); }
-                }
-            }
-            // counting invariant
-            let key = d.verif_canonical_state();
-            let nsrc = key.0.iter().filter(|&&e| e < u.k).count() as u32;
-            if key.2 != nsrc || key.3 != nsrc || key.0.len() != mask.count_ones() as usize {
-                report(&path, format!("counting invariant broken: received_source_symbols={} stored={} distinct source ESIs={} distinct ESIs={} (set size {})", key.2, key.3, nsrc, key.0.len(), mask.count_ones()));
-            }
-            if !want && mask.count_ones() >= u.k {
-                deficient_with_k += 1;
-            }
-            let entry = seen.entry(key).or_default();
-            // confirm every merge with the real object's own equality
-            if let Some(&j) = entry.iter().find(|&&j| nodes[j].dec == d) {
-                revisits += 1;
-                if nodes[j].mask != mask {
-                    machinery_failure("C08: equal decoder objects for different packet sets");
-                }
-            } else {
-                if !entry.is_empty() {
-                    hidden_state_splits += 1;
-                }
-                if nodes.len() >= STATE_CAP {
-                    machinery_failure(&format!("C08: state space of K={} universe {:?} not closed within {} states (unbounded hidden state?)", u.k, u.esis, STATE_CAP));
-                }
-                let j = nodes.len();
-                entry.push(j);
-                nodes.push(BNode { dec: d, mask, path });
-                queue.push_back(j);
-            }
-        }
-    }
-    // batching: from every state every ordered pair (and, small universes, triple) in ONE call equals one-by-one
+    // the menu of calls
+    let mut menu: Vec<Vec<usize>> = (0..n).map(|i| vec![i]).collect();
     if batches {
-        let tri = n <= 6;
-        for id in 0..nodes.len() {
-            for a in 0..n {
-                for b in 0..n {
-                    let cs: Vec<Option<usize>> = if tri { (0..n).map(Some).chain(std::iter::once(None)).collect() } else { vec![None] };
-                    for c in cs {
-                        let mut seq = vec![a, b];
-                        if let Some(c) = c { seq.push(c); }
-                        let mut one = nodes[id].dec.clone();
-                        let mut last = None;
-                        let mut ok = true;
-                        for &i in &seq {
-                            match guarded(|| one.decode(std::iter::once(u.packets[i].clone()))) { Ok(r) => last = r, Err(_) => { ok = false; break; } }
-                        }
-                        if !ok { continue; } // already reported by the single-step exploration
-                        let mut bat = nodes[id].dec.clone();
-                        let pk: Vec<EncodingPacket> = seq.iter().map(|&i| u.packets[i].clone()).collect();
-                        batch_checks += 1;
-                        let mut path = nodes[id].path.clone();
-                        path.extend_from_slice(&seq);
-                        match guarded(|| bat.decode(pk)) {
-                            Err(p) => report(&path, format!("batched delivery of the last {} packets panicked: {}", seq.len(), p)),
-                            Ok(r) => {
-                                if r != last { report(&path, format!("delivering the last {} packets in one batch answers {:?}, one by one {:?}", seq.len(), r.map(|x| x.len()), last.map(|x| x.len()))); }
-                                else if bat != one { report(&path, format!("decoder state after one batch of the last {} packets differs from one-by-one delivery", seq.len())); }
-                            }
-                        }
+        for a in 0..n {
+            for b in 0..n {
+                menu.push(vec![a, b]);
+                if n <= 6 {
+                    for c in 0..n {
+                        menu.push(vec![a, b, c]);
                     }
                 }
             }
         }
     }
+    while let Some(id) = queue.pop_front() {
+        if capped {
+            break;
+        }
+        if local_violations.get() >= 200 {
+            // BFS order: the shortest failing histories are on record; a broken decoder may have an unbounded state space
+            st.note(format!("block K={} universe {:?}: exploration stopped after {} violating transitions", u.k, u.esis, local_violations.get()));
+            break;
+        }
+        let was_done = abstract_answer(u, nodes[id].mask, &mut memo).unwrap_or(false);
+        for call in &menu {
+            let (src_dec, src_mask, mut calls) = { let nd = &nodes[id]; (nd.dec.clone(), nd.mask, nd.calls.clone()) };
+            calls.push(call.clone());
+            let mut d = src_dec;
+            let pk: Vec<EncodingPacket> = call.iter().map(|&i| u.packets[i].clone()).collect();
+            let r = guarded(|| d.decode(pk));
+            transitions += 1;
+            if call.len() > 1 { batch_transitions += 1; }
+            let mut mask = src_mask;
+            let mut dup = false;
+            for &i in call {
+                if mask & (1 << i) != 0 { dup = true; }
+                mask |= 1 << i;
+            }
+            if dup { dup_transitions += 1; }
+            if was_done { after_completion += 1; }
+            let want = match abstract_answer(u, mask, &mut memo) {
+                Ok(w) => w,
+                Err(m) => { report(&calls, m); continue; }
+            };
+            match r {
+                Err(p) => { report(&calls, format!("decode panicked: {}", p)); continue; }
+                Ok(None) => if want { report(&calls, "this history answers 'not yet' but the same set of packets delivered once to a fresh decoder decodes".into()); },
+                Ok(Some(x)) => {
+                    if !want { report(&calls, "this history decodes but the same set of packets delivered once to a fresh decoder does not".into()); }
+                    else if x != u.data { report(&calls, "wrong bytes".into()); }
+                }
+            }
+            // the invariant the decoder's case analysis relies on (property anchor): the counter of received source
+            // symbols equals the number of stored source symbols. How the decoder books ESIs (it may, e.g., keep
+            // recovered symbols after a solve) is its own business and is judged by the answers only.
+            let key = d.verif_canonical_state();
+            if key.2 != key.3 {
+                report(&calls, format!("counting invariant broken: received_source_symbols={} but {} source symbols are stored (set size {})", key.2, key.3, mask.count_ones()));
+            }
+            if !want && mask.count_ones() >= u.k {
+                deficient_with_k += 1;
+            }
+            let entry = seen.entry(key).or_default();
+            if entry.iter().any(|&j| nodes[j].dec == d && nodes[j].mask == mask) {
+                revisits += 1;
+            } else {
+                if entry.iter().any(|&j| nodes[j].dec != d) {
+                    hidden_state_splits += 1;
+                }
+                if entry.iter().any(|&j| nodes[j].dec == d) {
+                    same_object_other_set += 1;
+                }
+                if nodes.len() >= STATE_CAP {
+                    if st.violation_count.load(std::sync::atomic::Ordering::Relaxed) > 0 {
+                        st.note(format!("block K={} universe {:?}: exploration stopped at {} states after violations were found", u.k, u.esis, STATE_CAP));
+                        capped = true;
+                        break;
+                    }
+                    machinery_failure(&format!("C08: state space of K={} universe {:?} not closed within {} states (unbounded hidden state?)", u.k, u.esis, STATE_CAP));
+                }
+                let j = nodes.len();
+                entry.push(j);
+                nodes.push(BNode { dec: d, mask, calls });
+                queue.push_back(j);
+            }
+        }
+    }
     st.state(nodes.len() as u64);
-    st.transition(transitions + batch_checks);
-    st.trace(transitions + batch_checks);
-    st.eval(transitions + batch_checks);
+    st.transition(transitions);
+    st.trace(transitions);
+    st.eval(transitions);
     st.nontriv(nodes.len() as u64);
     st.count("block_states", nodes.len() as u64);
     st.count("block_transitions", transitions);
     st.count("block_transitions_duplicate_packet", dup_transitions);
     st.count("block_transitions_after_completion", after_completion);
     st.count("block_state_revisits_confirmed_equal", revisits);
-    st.count("block_batch_checks", batch_checks);
+    st.count("block_batch_checks", batch_transitions);
     st.count("block_states_split_by_hidden_state", hidden_state_splits);
+    st.count("block_states_same_object_other_set", same_object_other_set);
     st.count("block_transitions_into_rank_deficient_sets_with_K_or_more_symbols", deficient_with_k);
     st.count("abstract_sets_decodable", memo.values().filter(|v| **v == Some(true)).count() as u64);
     st.count("abstract_sets_undecodable", memo.values().filter(|v| **v == Some(false)).count() as u64);
-    st.note(format!("block K={} universe {:?} threshold {}: {} states, {} transitions, {} batch checks", u.k, u.esis, u.threshold, nodes.len(), transitions, batch_checks));
+    st.note(format!("block K={} (T,N,Al)={:?} universe {:?} threshold {}: {} states, {} transitions ({} of them multi-packet calls)", u.k, u.shape, u.esis, u.threshold, nodes.len(), transitions, batch_transitions));
+    if u.shape.1 > 1 { st.count("block_states_with_sub_blocks", nodes.len() as u64); }
 }
 
 /// bounded sequences on never-cloned originals (validates that exploring clones hides nothing)
@@ -190,7 +235,7 @@ fn originals_block(u: &BlockUniverse, depth: usize, st: &Stats) {
         let mut seq = vec![];
         let mut c = code;
         for _ in 0..depth { seq.push((c % n as u64) as usize); c /= n as u64; }
-        let mut d = new_block_decoder(u.k, 1, Some(u.threshold));
+        let mut d = shaped_decoder(u.k, u.shape, u.threshold);
         let mut mask = 0u32;
         for (s, &i) in seq.iter().enumerate() {
             mask |= 1 << i;
@@ -200,7 +245,7 @@ fn originals_block(u: &BlockUniverse, depth: usize, st: &Stats) {
             let bad = match &r { Err(_) => true, Ok(None) => want, Ok(Some(x)) => !want || x != &u.data };
             if bad {
                 let es: Vec<u32> = seq[..=s].iter().map(|&i| u.esis[i]).collect();
-                st.violation(format!("block:{}:{}:{:?}", u.k, u.threshold, es), format!("K={} sequence {:?} on an un-cloned decoder: answer {:?}, abstract answer {}", u.k, es, r.map(|o| o.map(|x| x.len())), want), json!({"kind":"block","K":u.k,"threshold":u.threshold,"universe":u.esis,"sequence":es}));
+                st.violation(format!("block:{}:{:?}:{}:{:?}", u.k, u.shape, u.threshold, es), format!("K={} (T,N,Al)={:?} sequence {:?} on an un-cloned decoder: answer {:?}, abstract answer {}", u.k, u.shape, es, r.map(|o| o.map(|x| x.len())), want), json!({"kind":"block","K":u.k,"shape":[u.shape.0,u.shape.1,u.shape.2],"threshold":u.threshold,"universe":u.esis,"calls":es.iter().map(|&e| vec![e]).collect::<Vec<_>>()}));
                 break;
             }
         }
@@ -214,48 +259,37 @@ fn replay_block(case: &Value) -> Result<(), String> {
     let k = case["K"].as_u64().unwrap() as u32;
     let th = case["threshold"].as_u64().unwrap() as u32;
     let uni: Vec<u32> = case["universe"].as_array().unwrap().iter().map(|x| x.as_u64().unwrap() as u32).collect();
-    let seq: Vec<u32> = case["sequence"].as_array().unwrap().iter().map(|x| x.as_u64().unwrap() as u32).collect();
+    let calls: Vec<Vec<u32>> = match case["calls"].as_array() {
+        Some(c) => c.iter().map(|b| b.as_array().unwrap().iter().map(|x| x.as_u64().unwrap() as u32).collect()).collect(),
+        None => case["sequence"].as_array().unwrap().iter().map(|x| vec![x.as_u64().unwrap() as u32]).collect(),
+    };
     let rep: Vec<u32> = uni.iter().copied().filter(|&e| e >= k).collect();
-    let u = block_universe(k, &rep, th);
+    let shape = match case["shape"].as_array() {
+        Some(a) => (a[0].as_u64().unwrap() as u16, a[1].as_u64().unwrap() as u16, a[2].as_u64().unwrap() as u8),
+        None => (1, 1, 1),
+    };
+    let u = block_universe_shaped(k, shape, &rep, th);
     let mut memo = HashMap::new();
-    let mut d = new_block_decoder(k, 1, Some(th));
+    let mut d = shaped_decoder(k, shape, th);
     let mut mask = 0u32;
-    for (s, e) in seq.iter().enumerate() {
-        let i = u.esis.iter().position(|x| x == e).ok_or("ESI not in universe")?;
-        mask |= 1 << i;
-        let r = guarded(|| d.decode(std::iter::once(u.packets[i].clone()))).map_err(|p| format!("step {}: panic {}", s, p))?;
+    for (s, call) in calls.iter().enumerate() {
+        let mut pk = vec![];
+        for e in call {
+            let i = u.esis.iter().position(|x| x == e).ok_or("ESI not in universe")?;
+            mask |= 1 << i;
+            pk.push(u.packets[i].clone());
+        }
+        let r = guarded(|| d.decode(pk)).map_err(|p| format!("call {}: panic {}", s, p))?;
         let want = abstract_answer(&u, mask, &mut memo)?;
         match r {
-            None if want => return Err(format!("step {}: None, abstract answer Some", s)),
-            Some(_) if !want => return Err(format!("step {}: Some, abstract answer None", s)),
-            Some(x) if x != u.data => return Err(format!("step {}: wrong bytes", s)),
+            None if want => return Err(format!("call {}: None, abstract answer Some", s)),
+            Some(_) if !want => return Err(format!("call {}: Some, abstract answer None", s)),
+            Some(x) if x != u.data => return Err(format!("call {}: wrong bytes", s)),
             _ => {}
         }
         let key = d.verif_canonical_state();
-        let nsrc = key.0.iter().filter(|&&e| e < k).count() as u32;
-        if key.2 != nsrc || key.3 != nsrc {
-            return Err(format!("step {}: counting invariant broken ({} / {} / {})", s, key.2, key.3, nsrc));
-        }
-    }
-    // batch variants of every suffix of length 2..3
-    for l in 2..=3usize.min(seq.len()) {
-        let cut = seq.len() - l;
-        let mut a = new_block_decoder(k, 1, Some(th));
-        let mut b = new_block_decoder(k, 1, Some(th));
-        let mut la = None;
-        for e in &seq[..cut] {
-            let i = u.esis.iter().position(|x| x == e).unwrap();
-            let _ = a.decode(std::iter::once(u.packets[i].clone()));
-            let _ = b.decode(std::iter::once(u.packets[i].clone()));
-        }
-        for e in &seq[cut..] {
-            let i = u.esis.iter().position(|x| x == e).unwrap();
-            la = guarded(|| a.decode(std::iter::once(u.packets[i].clone()))).map_err(|p| format!("panic {}", p))?;
-        }
-        let pk: Vec<EncodingPacket> = seq[cut..].iter().map(|e| u.packets[u.esis.iter().position(|x| x == e).unwrap()].clone()).collect();
-        let lb = guarded(|| b.decode(pk)).map_err(|p| format!("batched suffix of {} panicked: {}", l, p))?;
-        if la != lb || a != b {
-            return Err(format!("batched suffix of {} packets differs from one-by-one delivery", l));
+        if key.2 != key.3 {
+            return Err(format!("call {}: counting invariant broken (received_source_symbols={}, stored={})", s, key.2, key.3));
         }
     }
     Ok(())
@@ -324,15 +358,23 @@ fn explore_object(u: &ObjUniverse, st: &Stats) {
     queue.push_back(0);
     let mut transitions = 0u64;
     let mut revisits = 0u64;
+    let mut interface_splits = 0u64;
+    let local_violations = std::cell::Cell::new(0u64);
     let report = |path: &[usize], msg: String| {
+        local_violations.set(local_violations.get() + 1);
         let ids: Vec<(u8, u32)> = path.iter().map(|&i| (u.packets[i].payload_id().source_block_number(), u.packets[i].payload_id().encoding_symbol_id())).collect();
         st.violation(format!("object:{:?}:{:?}", u.cfg, path), format!("config {:?}, sequence (SBN,ESI) {:?}: {}", u.cfg, ids, msg), json!({"kind":"object","cfg":[u.cfg.0,u.cfg.1,u.cfg.2,u.cfg.3,u.cfg.4],"repair":((n as u64 - 0) as u64),"path":path,"npk":n}));
     };
     while let Some(id) = queue.pop_front() {
+        if local_violations.get() >= 200 {
+            st.note(format!("object config {:?}: exploration stopped after {} violating transitions", u.cfg, local_violations.get()));
+            break;
+        }
         for i in 0..n {
             let (base, bmask, mut path) = { let nd = &nodes[id]; (nd.0.clone(), nd.1, nd.2.clone()) };
             path.push(i);
             transitions += 1;
+            let mut split: Option<Decoder> = None;
             // interface 1: decode
             let mut d1 = base.clone();
             let r1 = guarded(|| d1.decode(u.packets[i].clone()));
@@ -345,7 +387,9 @@ fn explore_object(u: &ObjUniverse, st: &Stats) {
                 (Err(p), _) | (_, Err(p)) => { report(&path, format!("panicked: {}", p)); continue; }
                 (Ok(a), Ok(b)) => {
                     if a != b { report(&path, format!("decode() answers {:?} but add_new_packet()+get_result() answers {:?}", a.as_ref().map(|x| x.len()), b.as_ref().map(|x| x.len()))); }
-                    if d1 != d2 { report(&path, "decoder state differs between decode() and add_new_packet()".into()); }
+                    // a state difference between the two interfaces is not observable by itself: the second object is
+                    // explored as a state of its own, so any difference in later answers is found
+                    if d1 != d2 { split = Some(d2.clone()); }
                     match a {
                         None => if want { report(&path, "history answers 'not yet' but the same packet set delivered once in canonical order decodes".into()); },
                         Some(x) => {
@@ -357,12 +401,26 @@ fn explore_object(u: &ObjUniverse, st: &Stats) {
                     if guarded(|| d1.get_result()).ok() != Some(a.clone()) { report(&path, "get_result() after decode() differs from decode()'s answer".into()); }
                 }
             }
+            if let Some(d2) = split {
+                let key2 = obj_key(&d2);
+                let e2 = seen.entry(key2).or_default();
+                if !e2.iter().any(|&j| nodes[j].0 == d2 && nodes[j].1 == mask) && nodes.len() < 400_000 {
+                    interface_splits += 1;
+                    let j = nodes.len();
+                    e2.push(j);
+                    nodes.push((d2, mask, path.clone()));
+                    queue.push_back(j);
+                }
+            }
             let key = obj_key(&d1);
             let entry = seen.entry(key).or_default();
-            if entry.iter().any(|&j| nodes[j].0 == d1) {
-                revisits += 1; // the stored mask of the representative is only used as a representative
+            if entry.iter().any(|&j| nodes[j].0 == d1 && nodes[j].1 == mask) {
+                revisits += 1;
             } else {
-                if nodes.len() >= 400_000 { machinery_failure("C08 object: state space not closed within 400000 states"); }
+                if nodes.len() >= 400_000 {
+                    if st.violation_count.load(std::sync::atomic::Ordering::Relaxed) > 0 { st.note("object exploration stopped at 400000 states after violations were found".into()); queue.clear(); break; }
+                    machinery_failure("C08 object: state space not closed within 400000 states");
+                }
                 let j = nodes.len();
                 entry.push(j);
                 nodes.push((d1, mask, path));
@@ -378,6 +436,7 @@ fn explore_object(u: &ObjUniverse, st: &Stats) {
     st.count("object_states", nodes.len() as u64);
     st.count("object_transitions", transitions);
     st.count("object_state_revisits_confirmed_equal", revisits);
+    st.count("object_states_split_by_interface", interface_splits);
     st.note(format!("object config {:?}, {} packets: {} states, {} transitions x 2 interfaces", u.cfg, n, nodes.len(), transitions));
 }
 
@@ -456,11 +515,28 @@ pub fn run(ctx: &Ctx) -> i32 {
             }
         }
     }
+    let mut shapes_of: Vec<(u16, u16, u8)> = vec![(1, 1, 1); blocks.len()];
+    // block decoders with sub-blocks (N > 1, even and uneven splits) and wider symbols: what is kept after a
+    // solve must be in the layout the later calls expect
+    let mut shaped: Vec<(u32, (u16, u16, u8), Vec<u32>, u32, bool)> = vec![
+        (2, (4, 2, 1), vec![2, 3, far], 250, true),
+        (3, (5, 3, 1), vec![3, 4, far], 250, true),
+        (4, (6, 2, 2), vec![4, 5, far], 0, false),
+    ];
+    if ctx.thorough() {
+        shaped.push((4, (7, 3, 1), vec![4, 5, 6, far], 250, true));
+        shaped.push((10, (12, 5, 1), vec![10, 11, far], 250, false));
+        shaped.push((5, (8, 2, 4), vec![5, 6, far], 0, true));
+    }
+    for (k, sh, rep, th, bat) in shaped {
+        blocks.push((k, rep, th, bat));
+        shapes_of.push(sh);
+    }
     let nb = blocks.len();
     par_for(nb + objs.len() + 2, |w| {
         if w < nb {
             let (k, rep, th, bat) = &blocks[w];
-            let u = block_universe(*k, rep, *th);
+            let u = block_universe_shaped(*k, shapes_of[w], rep, *th);
             explore_block(&u, &st, *bat);
         } else if w < nb + objs.len() {
             let (cfg, r) = objs[w - nb];
@@ -479,10 +555,10 @@ pub fn run(ctx: &Ctx) -> i32 {
     st.sample(json!({"kind":"uncloned","K":2,"sequences":"all sequences with repetition up to the depth bound, each on a fresh never-cloned decoder"}));
     finish(ctx, &st, Finish {
         level: "model_checking",
-        rule: "explicit-state exploration to closure: states = real SourceBlockDecoder / Decoder objects reachable by delivering any packet of a fixed universe at any time (so every order, every multiplicity, every continuation after completion, every interleaving of blocks is a path), de-duplicated by an exact canonical key (sorted ESIs, repair arrival order, counters, decoded flag) and confirmed with the objects' own ==; on every transition the answer must equal the abstract answer of the delivered set (fresh decoder, canonical order, one batch), the counting invariant must hold, decode() must agree with add_new_packet()+get_result() in answer and state, and every ordered pair/triple delivered as one batch must equal one-by-one delivery in answer and state; plus all bounded sequences on never-cloned decoders. distinct_nontrivial = distinct reachable states.".into(),
+        rule: "explicit-state exploration to closure: a state is (real SourceBlockDecoder / Decoder object, set of delivered packets), reached by calling decode() with any packet of a fixed universe at any time (so every order, every multiplicity, every continuation after completion, every interleaving of blocks is a path) and, for the small universes, with any ordered pair / triple of packets in ONE call (every mix of batched and single delivery is a path too); states are de-duplicated by an exact canonical key (sorted ESIs, repair arrival order, counters, decoded flag) confirmed with the objects' own ==. On every transition the answer must equal the abstract answer of the delivered set (a fresh decoder given the set once packet by packet, cross-checked against a fresh decoder given it in one call), bytes must be the data, received_source_symbols must equal the number of stored source symbols, and at object level decode() must agree with add_new_packet()+get_result() (a differing state after the two interfaces is explored as a state of its own); block universes include sub-blocked configurations (N>1); plus all bounded sequences on never-cloned decoders. distinct_nontrivial = distinct reachable states.".into(),
         exhaustive: true,
         assumptions: vec!["closure is relative to the fixed packet universes listed in notes; packets are the encoder's own (equal ESI implies equal payload)".into()],
         extra: Map::new(),
-        must_be_nonzero: vec!["block_states", "block_transitions_duplicate_packet", "block_transitions_after_completion", "block_batch_checks", "object_states", "uncloned_original_steps", "abstract_sets_decodable", "abstract_sets_undecodable", "block_state_revisits_confirmed_equal", "block_transitions_into_rank_deficient_sets_with_K_or_more_symbols"],
+        must_be_nonzero: vec!["block_states", "block_states_with_sub_blocks", "block_transitions_duplicate_packet", "block_transitions_after_completion", "block_batch_checks", "object_states", "uncloned_original_steps", "abstract_sets_decodable", "abstract_sets_undecodable", "block_state_revisits_confirmed_equal", "block_transitions_into_rank_deficient_sets_with_K_or_more_symbols"],
     }, replay)
 }
